@@ -36,7 +36,13 @@ def all_representable(ir, t, v):
     if v is None:
         return True
     if 'ref' in t:
-        return all(all_representable(ir, ft, v.get(fn)) for fn, ft in gen.all_fields(ir, v.get('__class__', t['ref'])))
+        cname = v.get('__class__', t['ref'])
+        td = [x for x in ir['types'] if x['name'] == cname][0]
+        if td.get('base') and not td['fields'] and any('attr' in ft for _, ft in gen.all_fields(ir, cname)):
+            # zeep 4.3 gives an extension without a content model a spurious '_value_1' member and renders the attributes it
+            # inherits as the literal 'NotSet' (checked against zeep directly with a valid schema): not usable as a second opinion
+            return False
+        return all(all_representable(ir, ft, v.get(fn)) for fn, ft in gen.all_fields(ir, cname))
     for k in ('array', 'seq'):
         if k in t:
             return all(all_representable(ir, t[k], x) for x in v)
@@ -186,6 +192,9 @@ def znorm(ir, t, v):
             return znorm(ir, t[k], v)
     if 'prim' in t and t['prim'] in ('Unicode', 'AnyUri') and v == '':
         return None
-    if 'prim' in t and t['prim'] == 'ByteArray' and v in (b'', [], [b'']):
-        return None
+    if 'prim' in t and t['prim'] == 'ByteArray':
+        if isinstance(v, (list, tuple)):
+            v = b''.join(bytes(x) for x in v)          # the native form is a sequence of chunks
+        if v == b'':
+            return None
     return v
